@@ -85,8 +85,14 @@ def build(variant, repo=None):
     if os.path.exists(stamp):
         return res
     # prune builds of other tree versions for this variant
-    for old in glob.glob(os.path.join(OUT, "build", "%s-*" % variant)):
-        shutil.rmtree(old, ignore_errors=True)
+    if "VERIF_REPO" not in os.environ:
+        import time
+        for old in glob.glob(os.path.join(OUT, "build", "%s-*" % variant)):
+            try:
+                if time.time() - os.path.getmtime(old) > 3600:
+                    shutil.rmtree(old, ignore_errors=True)
+            except OSError:
+                pass
     os.makedirs(d, exist_ok=True)
     jobs = []
     objs = []
